@@ -425,7 +425,13 @@ pub fn replay_file(path: &str) -> Result<Option<Violation>, String> {
 pub fn check_tinylfu(ctx: &Ctx, prop: E7Prop, out: &mut Outcome, q: u32, t: u32, rule: &str) {
     let th = ctx.tier == Tier::Thorough;
     let strat = move || tcase_strategy(th);
-    let exec = move |c: &TCase| run_tinylfu(c, prop);
+    let exec = move |c: &TCase| {
+        let mut r = run_tinylfu(c, prop);
+        if prop == E7Prop::C11 && r.violation.is_none() && r.aborted_by_panic.is_none() {
+            r.violation = crate::e7::run_tinylfu_str(c);
+        }
+        r
+    };
     let dummy = |_c: &TCase| Case { kind: Kind::Wtl, cfg: Cfg::simple(1), keys: KeyMode::Tracked, alphabet: 0, ops: vec![] };
     let hash_case = |c: &TCase| {
         let mut d = dummy(c);
@@ -1028,7 +1034,19 @@ pub fn check_putresult_laws(ctx: &Ctx, out: &mut Outcome) {
             }
         }
     }));
-    if r.is_err() {
+    // clone_from must give exactly what clone gives (every pair of variants)
+    let r0 = std::panic::catch_unwind(std::panic::AssertUnwindSafe(|| {
+        for (a, ma) in vals.iter() {
+            for (b, mb) in vals.iter() {
+                let mut x = *a;
+                x.clone_from(b);
+                if x != *b {
+                    bad.get_or_insert(format!("x = {:?}; x.clone_from(&{:?}) leaves x == {:?}", ma, mb, x));
+                }
+            }
+        }
+    }));
+    if r.is_err() || r0.is_err() {
         bad = Some("a PutResult law check panicked".to_string());
     }
     // payloads whose own `==` is not reflexive (NaN) or not identity (0.0 == -0.0): "equal exactly
